@@ -12,8 +12,8 @@ import (
 	"crypto/sha256"
 	"crypto/sha3"
 	"crypto/sha512"
-	"hash"
 	"fmt"
+	"hash"
 	"math/big"
 	"sort"
 	"strings"
